@@ -10,8 +10,8 @@ reviewed function, and is reported under every property whose subject that funct
 guidance's "the instances confirmed on today's tree are the reference for any later change", made insensitive to
 refactoring by the equivalence proof rather than by comparing text.
 
-Not reported: runs the engine could not analyse (outside the fragment, too complex) - no witness, no verdict from this rule;
-new functions nobody reviewed are covered only where a reviewed function calls them (they are inlined for the proof).
+A changed run the engine cannot analyse (outside the fragment, too complex, time budget) is reported too, worded as what it is:
+changed, and not shown to behave as reviewed.  New functions nobody reviewed are covered only where a reviewed function calls them (they are inlined for the proof).
 """
 import ast
 import os
@@ -121,6 +121,20 @@ def _class_shape(tree):
     return out
 
 
+def _constants(tree):
+    """NAME -> source text of the value, for simple module-level and class-level assignments"""
+    out = {}
+
+    def scan(body, prefix):
+        for st in body:
+            if isinstance(st, ast.Assign) and len(st.targets) == 1 and isinstance(st.targets[0], ast.Name):
+                out[prefix + st.targets[0].id] = " ".join(ast.unparse(st.value).split())
+            elif isinstance(st, ast.ClassDef):
+                scan(st.body, prefix + st.name + ".")
+    scan(tree.body, "")
+    return out
+
+
 def run(chk, ctx, prop):
     from .. import normalise
     rule = "%s.RV" % prop
@@ -148,13 +162,19 @@ def run(chk, ctx, prop):
                 chk.ob(rule, "%s.%s still exists" % (modname, q), False, "", key="%s | reviewed function is gone" % q, where=m.rel,
                        message="a function whose behaviour is the subject of this property was removed or renamed; its callers were not proved to behave as reviewed")
                 continue
-            mine = [l for l in left if l["q"] == q and "outside the fragment" not in l["why"]]
+            mine = sorted([l for l in left if l["q"] == q], key=lambda l: "outside the fragment" in l["why"])
             ok = not mine
             if not ok:
                 w = mine[0]["why"]
                 if (q, w) in reported:
                     continue
                 reported.add((q, w))
+                if "outside the fragment" in w:
+                    chk.ob(rule, "%s.%s behaves as reviewed" % (modname, q), False, w, key="%s | changed, and not shown to behave as the reviewed version (%s)" % (q, " ".join(w.split())[:120]),
+                           where="%s:%d" % (m.rel, mine[0].get("line", 0)),
+                           message="statements of a function whose behaviour is the subject of this property were changed in a way the equivalence proof cannot follow (%s): nothing shows that it "
+                                   "still behaves as the reviewed version" % w[:200])
+                    continue
                 chk.ob(rule, "%s.%s behaves as reviewed" % (modname, q), False, w, key="%s | behaviour differs from the reviewed version: %s" % (q, " ".join(w.split())[:200]),
                        where="%s:%d" % (m.rel, mine[0].get("line", 0)),
                        message="statements of a function whose behaviour is the subject of this property were changed and are not interchangeable with the reviewed ones: " + w[:500])
@@ -170,6 +190,14 @@ def run(chk, ctx, prop):
                                    "protocol methods behave differently from the reviewed version")
                 elif cname in a:
                     chk.ob(rule, "%s.%s class shape as reviewed" % (modname, cname), True, "")
+        # module-level and class-level constants that both versions bind: same value
+        ca, cb = _constants(m.tree), _constants(ref)
+        for name, val in sorted(cb.items()):
+            if name in ca and ca[name] != val:
+                chk.ob(rule, "%s: constant %s as reviewed" % (modname, name), False, "", key="%s.%s | constant changed from `%s` to `%s`" % (modname, name, val[:80], ca[name][:80]), where=m.rel,
+                       message="a module / class level constant that reviewed functions of this property read has another value than the reviewed one")
+        if cb:
+            chk.ob(rule, "%s: %d module / class constants as reviewed" % (modname, len(cb)), True, "", nontrivial=False)
         if st:
             chk.extra.setdefault("normalisation", {})[modname] = {k: v for k, v in st.items() if k in ("functions_changed", "regions_proved", "regions_left", "constants_inlined", "helpers_removed",
                                                                                                      "renamed_back", "functions_still_different")}
